@@ -173,8 +173,170 @@ func runC08(c *core.Ctx) {
 			})
 		}
 	}
+	// ---- Part B: request histories on ONE root. Lazily cached bindings (Object.meta, FieldDef.goField/method) make the second
+	// request's answer a function of the first unless the caches are right: every ordered pair (d1, d2), d1 from the abstract
+	// bases plus two warm-up documents (a list of struct VALUES of A, plain object edges), d2 from the abstract bases.
+	warm := []*world.Doc{
+		world.Q(world.F("vkids", world.F("id"), world.F("i")), world.F("as", world.F("id"))), // the struct values come first
+		world.Q(world.F("a", world.F("id"), world.F("kid", world.F("id"))), world.F("b", world.F("id")), world.F("c", world.F("id"))),
+		world.Q(world.F("as", world.F("id")), world.F("vkids", world.F("id"), world.F("i"))), // pointers first, the struct values last
+	}
+	firsts := append(append([]*world.Doc{}, warm...), c08Docs()...)
+	corner := func(x int) bool { return x == 1 || x == 3 || x == 7 }
+	for ni := 1; ni <= 7 && completed; ni++ {
+		for ui := 1; ui <= 7 && completed; ui++ {
+			if !c.Thorough() && !(corner(ni) && corner(ui)) {
+				continue
+			}
+			sBase := world.Universe(world.UniverseOpts{NamedImpl: ni, ABMembers: ui})
+			g := retypeGraph(sBase, 0).FSView(sBase)
+			for fi, d1 := range firsts {
+				for si, d2 := range c08Docs() {
+					if c.Expired() {
+						completed = false
+						break
+					}
+					t1, t2 := d1.Render(world.LOneLine), d2.Render(world.LOneLine)
+					if !c.Owns(fmt.Sprintf("B/%d/%d/%d/%d", ni, ui, fi, si)) {
+						continue
+					}
+					ex1 := world.RefExec(sBase, g, d1, "", nil, nil, world.RefOpts{})
+					ex2 := world.RefExec(sBase, g, d2, "", nil, nil, world.RefOpts{})
+					if ex1.Invalid || ex2.Invalid {
+						continue
+					}
+					c.Nontrivial()
+					c.R.Distinct++
+					agree := map[string]bool{}
+					type bad struct {
+						b         binding
+						kind, msg string
+						step      int
+						o         *world.Obs
+						ex        *world.Expect
+					}
+					var bads []bad
+					for _, b := range bindings {
+						s := sBase
+						if b.god != 0 {
+							s = world.Universe(world.UniverseOpts{NamedImpl: ni, ABMembers: ui, GoDir: b.god})
+						}
+						c.Eval()
+						root, run, err := world.BuildRoot(world.Config{Strat: world.FS, Bind: b.bind, Schema: s}, g)
+						if err != nil {
+							panic(core.EngineError{Msg: "schema rejected: " + err.Error()})
+						}
+						o1 := world.Observe(root, run, t1, "", nil)
+						run.Log, run.Args = nil, nil
+						o2 := world.Observe(root, run, t2, "", nil)
+						if kind, msg := compareExpect(sBase, g, ex1, o1, world.FS, true); kind != "" {
+							bads = append(bads, bad{b, kind, msg, 1, o1, ex1})
+						} else if kind, msg := compareExpect(sBase, g, ex2, o2, world.FS, true); kind != "" {
+							bads = append(bads, bad{b, kind, msg, 2, o2, ex2})
+						} else {
+							agree[b.name] = true
+							c.Outcome("history-agree")
+						}
+					}
+					for _, x := range bads {
+						c.Outcome("history-" + x.kind)
+						// mechanism attribution for finding C08-F1: only the second request differs, only after the struct-value
+						// warm-up, only under a lazy binding, and the same pair is right on a root with registered types
+						model := "none"
+						if x.step == 2 && fi == 0 && x.b.name != "register" && agree["register"] {
+							model = "value-bound-first"
+						}
+						attrs := map[string]string{"part": "history", "binding": x.b.name, "model": model, "step": fmt.Sprint(x.step)}
+						if x.kind == "panic" {
+							attrs["site"], attrs["class"] = x.o.Panic.Site, x.o.Panic.Class
+						}
+						c.Violation(x.kind, attrs, worldCase{Config: "FS/" + x.b.name, SDL: sBase.SDL(), Query: t1 + "   THEN   " + t2,
+							Expected: map[string]interface{}{"data": x.ex.Data, "err_paths": x.ex.ErrPaths}, Observed: x.o, Diff: fmt.Sprintf("request %d of the history: %s", x.step, x.msg)})
+					}
+				}
+			}
+		}
+	}
+	// ---- Part C: schema growth. A root serves requests, then a later load makes one more object type implement the
+	// interface (extend type X implements Named) or join the union (extend union AB = X); every abstract base is resolved
+	// before and after and compared with the reference for the schema in force.
+	for ni := 1; ni <= 7 && completed; ni++ {
+		for ui := 1; ui <= 7 && completed; ui++ {
+			if !c.Thorough() && !(corner(ni) && corner(ui)) {
+				continue
+			}
+			for bit := 0; bit < 3; bit++ {
+				for which := 0; which < 2; which++ {
+					ni2, ui2 := ni, ui
+					tn := []string{"A", "B", "C"}[bit]
+					var ext string
+					if which == 0 {
+						if ni&(1<<uint(bit)) != 0 {
+							continue
+						}
+						ni2 |= 1 << uint(bit)
+						ext = "extend type " + tn + " implements Named"
+					} else {
+						if ui&(1<<uint(bit)) != 0 {
+							continue
+						}
+						ui2 |= 1 << uint(bit)
+						ext = "extend union AB = " + tn
+					}
+					if !c.Owns(fmt.Sprintf("C/%d/%d/%s", ni, ui, ext)) {
+						continue
+					}
+					if c.Expired() {
+						completed = false
+						break
+					}
+					sBefore := world.Universe(world.UniverseOpts{NamedImpl: ni, ABMembers: ui})
+					sAfter := world.Universe(world.UniverseOpts{NamedImpl: ni2, ABMembers: ui2})
+					g := retypeGraph(sBefore, 0).FSView(sBefore)
+					for _, b := range bindings[:2] {
+						c.Eval()
+						c.R.Distinct++
+						c.Nontrivial()
+						root, run, err := world.BuildRoot(world.Config{Strat: world.FS, Bind: b.bind, Schema: sBefore}, g)
+						if err != nil {
+							panic(core.EngineError{Msg: "schema rejected: " + err.Error()})
+						}
+						for phase, sch := range []*world.Schema{sBefore, sAfter} {
+							if phase == 1 {
+								if err := root.ParseString(ext); err != nil {
+									c.Violation("extension-refused", map[string]string{"part": "growth", "binding": b.name}, map[string]interface{}{"sdl": sBefore.SDL(), "extension": ext, "error": err.Error()})
+									break
+								}
+							}
+							for _, d := range c08Docs() {
+								ex := world.RefExec(sch, g, d, "", nil, nil, world.RefOpts{})
+								if ex.Invalid {
+									continue
+								}
+								text := d.Render(world.LOneLine)
+								run.Log, run.Args = nil, nil
+								o := world.Observe(root, run, text, "", nil)
+								kind, msg := compareExpect(sch, g, ex, o, world.FS, true)
+								if kind == "" {
+									c.Outcome("growth-agree")
+									continue
+								}
+								c.Outcome("growth-" + kind)
+								attrs := map[string]string{"part": "growth", "binding": b.name, "phase": []string{"before", "after"}[phase]}
+								if kind == "panic" {
+									attrs["site"], attrs["class"] = o.Panic.Site, o.Panic.Class
+								}
+								c.Violation(kind, attrs, worldCase{Config: "FS/" + b.name, SDL: sBefore.SDL() + "\n# later load:\n" + ext, Query: text,
+									Expected: map[string]interface{}{"data": ex.Data, "err_paths": ex.ErrPaths}, Observed: o, Diff: msg})
+							}
+						}
+					}
+				}
+			}
+		}
+	}
 	_ = k
-	c.R.Bound = "49 membership variants x 7 abstract bases x 5 binding modes x 2 graphs; mutation depth per variant: quick 0 (9 corner variants 1), thorough 1 (default variant 2)"
+	c.R.Bound = "49 membership variants x 7 abstract bases x 5 binding modes x 2 graphs; mutation depth per variant: quick 0 (9 corner variants 1), thorough 1 (default variant 2); + all ordered request pairs on one root (10 x 7 documents) and every single implements / union-member extension loaded between requests, for the 9 corner variants (thorough: all 49)"
 	if !completed {
 		c.Cap("deadline reached")
 	}
